@@ -41,6 +41,7 @@ package middleware
 //@   ensures ret(H, 1, old(calls(H))) != nil && ret(F, 0, old(calls(F))) && ret(P, 0, old(calls(P))) == nil ==> err == nil && events == ret(H, 0, old(calls(H))) [success-only-after-publish]
 //@   ensures ret(H, 1, old(calls(H))) != nil && ret(F, 0, old(calls(F))) && ret(P, 0, old(calls(P))) != nil ==> err != nil [publish-failure-keeps-an-error]
 //@   panics-ensures panicked(H, old(calls(H))) ==> calls(P) == old(calls(P)) && metaKept(msg) [panicking-handler-is-not-poisoned]
+//@   modifies map(msg.Metadata)
 
 // ---- simple middlewares (C19) ----
 
@@ -92,6 +93,7 @@ package middleware
 //@   callee H = h
 //@   ensures calls(H) == old(calls(H)) + 1 && result0 == ret(H, 0, old(calls(H))) && result1 == ret(H, 1, old(calls(H))) [result-passed-through]
 //@   ensures !cancelled(old(ctxOf(msg))) ==> !cancelled(ctxOf(msg)) [context-not-left-cancelled]
+//@   modifies msg.ctx
 //@   assert @call:h: msg.ctx != nil && ctxparent(msg.ctx) == old(ctxOf(msg)) && ctxtimeout(msg.ctx) == timeout && (forall k any :: ctxval(msg.ctx, k) == ctxval(old(ctxOf(msg)), k)) [deadline-visible-during-the-call]
 //@   panics-ensures panicked(H, old(calls(H))) [only-the-handler-panics]
 
@@ -118,6 +120,7 @@ package middleware
 //@   ensures calls(H) == old(calls(H)) + 1 && result0 == ret(H, 0, old(calls(H))) && result1 == ret(H, 1, old(calls(H))) [result-passed-through]
 //@   ensures forall j int :: 0 <= j && j < len(result0) ==> result0[j].Metadata[CorrelationIDMetadataKey] == (old(result0[j].Metadata[CorrelationIDMetadataKey]) != "" ? old(result0[j].Metadata[CorrelationIDMetadataKey]) : old(message.Metadata[CorrelationIDMetadataKey])) [id-copied-where-missing-never-overwritten]
 //@   ensures forall j int, k string :: 0 <= j && j < len(result0) && k != CorrelationIDMetadataKey ==> has(result0[j].Metadata, k) == old(has(result0[j].Metadata, k)) && result0[j].Metadata[k] == old(result0[j].Metadata[k]) [other-keys-untouched]
+//@   modifies anymap(message.Metadata)
 //@   inv loop 1: producedMessages == ret(H, 0, old(calls(H))) && err == ret(H, 1, old(calls(H))) && calls(H) == old(calls(H)) + 1 && correlationID == old(message.Metadata[CorrelationIDMetadataKey]) [locals-stable]
 //@   inv loop 1: forall j int :: 0 <= j && j < len(producedMessages) ==> (old(producedMessages[j].Metadata[CorrelationIDMetadataKey]) != "" ==> producedMessages[j].Metadata[CorrelationIDMetadataKey] == old(producedMessages[j].Metadata[CorrelationIDMetadataKey])) && (producedMessages[j].Metadata[CorrelationIDMetadataKey] == old(producedMessages[j].Metadata[CorrelationIDMetadataKey]) || producedMessages[j].Metadata[CorrelationIDMetadataKey] == correlationID) [never-overwritten]
 //@   inv loop 1: forall j int :: 0 <= j && j <= rangeindex ==> producedMessages[j].Metadata[CorrelationIDMetadataKey] == (old(producedMessages[j].Metadata[CorrelationIDMetadataKey]) != "" ? old(producedMessages[j].Metadata[CorrelationIDMetadataKey]) : correlationID) [processed-have-the-id]
@@ -169,4 +172,5 @@ package middleware
 //@   ensures calls(H) == old(calls(H)) + 1 && result0 == ret(H, 0, old(calls(H))) && result1 == ret(H, 1, old(calls(H))) [result-passed-through]
 //@   ensures ret(H, 1, old(calls(H))) == nil ==> metaKept(msg) [success-untouched]
 //@   ensures ret(H, 1, old(calls(H))) != nil ==> msg.Metadata[delay.DelayedForKey] == durstr(nextDelay(d, old(msg.Metadata[delay.DelayedForKey]))) [failure-stamps-the-next-delay]
+//@   modifies map(msg.Metadata)
 //@   panics-ensures panicked(H, old(calls(H))) [only-the-handler-panics]
